@@ -1,4 +1,4 @@
-"""C01 - binary write/read round trip and wire-format conformance (generated C++).
+"""C01 - binary write/read round trip and wire-format conformance (generated C++; generated Python on the corpus, the big values and the retained-values streams).
 
 Workload: `ser` corpus models x protocols x edge-heavy value sets, plus a boundary sweep that places
 every primitive / container / record encoder at byte offsets 64KiB-12 .. 64KiB+2 of the stream
@@ -43,6 +43,18 @@ def run_model(ctx, key, pkg, nsets, flavors):
                 ctx.ev()
                 ctx.count("corpus.batched." + epb.name)
                 rt.judge(ctx, m, proto, vals, data, r, epb.name, "bin", "corpus %s/%s set %d (writer called with batches of 3 and empty batches)" % (key, proto.name, k), {"key": key, "set": k, "batched": True})
+        # the generated Python reader and writer on the same corpus (own value sets: CPython quiets signalling NaNs when it widens a float32);
+        # once through copy_to and once with a consumer that keeps every stream item until the stream has been read to its end
+        vgp = values.ValueGen(c, rng("C01p", key, proto.name), quiet_nan_only=True)
+        for k in range(min(nsets, 3)):
+            vals = vgp.steps(proto, stream_len=(40 if k == 2 else None))
+            data = c.encode_stream(proto, sch, vals)
+            ctx.case(("pyvals", key, proto.name, k, len(data)))
+            for ep in (rt.PyEndpoint(m), rt.PyEndpoint(m, mode="list")):
+                r = ep.copy(proto.name, "bin", "bin", data)
+                ctx.ev()
+                ctx.count("corpus." + ep.name)
+                rt.judge(ctx, m, proto, vals, data, r, ep.name, "bin", "corpus %s/%s python set %d" % (key, proto.name, k), {"key": key, "set": k})
         for _, t in proto.steps:
             for x in walk_types(t):
                 ctx.count("shape." + type(x).__name__)
@@ -100,9 +112,42 @@ def run_big(ctx, flavors):
                 ctx.ev()
                 ctx.count("big." + ep.name)
                 rt.judge(ctx, m, proto, vals, data, r, ep.name, "bin", "big value %s (%d bytes, variant %d)" % (pname, len(data), k), {"big": pname})
+            for ep in (rt.PyEndpoint(m), rt.PyEndpoint(m, mode="list")):
+                r = ep.copy(pname, "bin", "bin", data)
+                ctx.ev()
+                ctx.count("big." + ep.name)
+                rt.judge(ctx, m, proto, vals, data, r, ep.name, "bin", "big value %s (%d bytes, variant %d, python)" % (pname, len(data), k), {"big": pname})
             ctx.case(("big", pname, k))
     pmap(one, cases)
     ctx.sample({"big_values": [(n, len(m.codec.encode_stream(pkg.find(n), "{}", [0, v, [], ""]))) for n, t, v in cases]})
+    m.close()
+
+
+def run_retained(ctx):
+    """values that must stay intact after the reader has moved on: many small arrays / strings / byte vectors inside one long vector and as stream items,
+    followed by more than 64 KiB of further data, read by a consumer that keeps every value (Python: list mode; C++: batches of 64)"""
+    f32t = P("float32")
+    pkg = Pkg("Retained", [Rec("RtMarker", [("id", P("uint32")), ("pos", A(f32t, ((None, 3),))), ("w", A(P("float64"), None)), ("tag", P("string")), ("raw", V(P("uint8")))]),
+                           Proto("RtP", [("markers", V(N("RtMarker"))), ("frames", S(A(f32t, 1))), ("grids", S(A(P("complexfloat32"), 2))), ("marks", S(N("RtMarker"))), ("end", P("string"))])])
+    m = rt.prepare_model(ctx, "retained", pkg, ["plain"])
+    if m is None:
+        raise common.Inconclusive("retained-values model did not build")
+    c = m.codec
+    from vlib.refcodec import f32, f64
+
+    def marker(i):
+        return [i, ((3,), [f32(float(i)), f32(float(i) + 0.5), f32(-float(i))]), ((2,), [f64(float(i) * 3), f64(0.25)]), "m%05d" % i, [i % 251, (i * 7) % 251, 3]]
+    for n in (40, 3000):
+        vals = [[marker(i) for i in range(n)], [((8,), [f32(float(i * 8 + j)) for j in range(8)]) for i in range(n)],
+                [((2, 2), [(f32(float(i)), f32(float(j))) for j in range(4)]) for i in range(n // 2)], [marker(i + 7) for i in range(n // 3)], "end"]
+        proto = pkg.find("RtP")
+        data = c.encode_stream(proto, m.schema("RtP"), vals)
+        ctx.case(("retained", n, len(data)))
+        for ep in (rt.PyEndpoint(m), rt.PyEndpoint(m, mode="list"), rt.PyEndpoint(m, mode="itemwise"), rt.CppEndpoint(m, "plain"), rt.CppEndpoint(m, "plain", bufs=[64, 64, 64])):
+            r = ep.copy("RtP", "bin", "bin", data)
+            ctx.ev()
+            ctx.count("retained." + ep.name)
+            rt.judge(ctx, m, proto, vals, data, r, ep.name, "bin", "retained values, %d markers, %d bytes (%s)" % (n, len(data), ep.name), {"retained": n})
     m.close()
 
 
@@ -160,6 +205,7 @@ def run(ctx):
     run_sweep(ctx, ["plain", "asan"], range(-12, 3))
     run_big(ctx, ["plain", "asan"])
     run_wide(ctx, ["plain"])
+    run_retained(ctx)
     cxx.prune_cache()
 
 
